@@ -291,6 +291,12 @@ func TestC13(t *testing.T) {
 			c.Report(rt, "C13|"+fmt.Sprintf("%T", v)+"|encode-unrepeatable", fmt.Sprintf("%s: final encoding %s %s differs from the first: %s vs %s; history %v", gv.kind, fr, msg, hx(b), hx(firstEnc), hist), rep())
 			return
 		}
+		if gv.trespass != nil {
+			if w := gv.trespass(); w != "" {
+				c.Report(rt, "C13|"+fmt.Sprintf("%T", v)+"|callers-memory-written", fmt.Sprintf("%s: sizing / encoding wrote outside the value: %s; history %v", gv.kind, w, hist), rep())
+				return
+			}
+		}
 		if d := c13View(v); d != dumpAfterFirst {
 			c.Report(rt, "C13|"+fmt.Sprintf("%T", v)+"|value-disturbed", fmt.Sprintf("%s: the value changed between its first encoding and the end of the history %v: %s", gv.kind, hist, obs.FirstDiff(dumpAfterFirst, d)), rep())
 			return
